@@ -28,6 +28,25 @@ theorem mapM_except_mem {α β : Type} (f : α → Except Err β) (l : List α) 
         · obtain ⟨y', hy', hf⟩ := ih ys hys hx'
           exact ⟨y', by simp [hy'], hf⟩
 
+theorem mapM_except_mem_rev {α β : Type} (f : α → Except Err β) (l : List α) (r : List β)
+    (h : l.mapM f = .ok r) (y : β) (hy : y ∈ r) : ∃ x ∈ l, f x = .ok y := by
+  induction l generalizing r with
+  | nil => simp [List.mapM_nil, pure, Except.pure] at h; subst h; cases hy
+  | cons a as ih =>
+    simp only [List.mapM_cons, bind, Except.bind] at h
+    split at h
+    · cases h
+    · rename_i y0 hy0
+      split at h
+      · cases h
+      · rename_i ys hys
+        simp only [pure, Except.pure, Except.ok.injEq] at h
+        subst h
+        rcases List.mem_cons.mp hy with rfl | hy'
+        · exact ⟨a, by simp, hy0⟩
+        · obtain ⟨x, hx, hf⟩ := ih ys hys hy'
+          exact ⟨x, by simp [hx], hf⟩
+
 theorem mapM_except_get {α β : Type} (f : α → Except Err β) (l : List α) (r : List β)
     (h : l.mapM f = .ok r) (k : Nat) (hk : k < l.length) :
     ∃ hk' : k < r.length, f l[k] = .ok r[k] := by
